@@ -1,14 +1,17 @@
 // @unit crate=fibre file=channels/src/spsc/rendezvous.rs
 // @needs fibre/stubs.rs
 // @needs fibre/rendezvous.rs
+// @needs fibre/vshim.rs
+// @swap file=channels/src/internal/rendezvous.rs from="use std::collections::VecDeque;" to="#[cfg(kani)] use crate::verif_k_vshim::VecDeque; #[cfg(not(kani))] use std::collections::VecDeque;"
 // Handle-level obligations of C04 for the SPSC rendezvous handles (RendezvousSyncSender/Receiver,
 // RendezvousAsyncSender/Receiver): every public operation of a handle whose close() returned Ok reports Closed /
 // Disconnected, hands the value back and leaves the core untouched; close is idempotent; drop does not decrement again;
 // to_sync/to_async carry the flag and the counts.  A peer is parked on the other side (an async future polled once)
 // so that an operation that wrongly goes ahead COMPLETES (and is reported) instead of reaching a park stub.
-// MEASURED: every harness in which a parked SENDER record or a VecDeque receiver store is built exceeds 6.5-13 GB of
-// CBMC memory (the same records cost 3 s in the core unit): those gate obligations carry tier=probe; the conversion
-// obligations and the single-slot-store sender gates discharge in 20-40 s.
+// MEASURED: with std's VecDeque every harness in which a parked SENDER record or a VecDeque receiver store is built
+// exceeds 6.5-13 GB of CBMC memory.  When this unit is injected, `std::collections::VecDeque` in
+// internal/rendezvous.rs is therefore swapped (cfg(kani) only) for the array-backed stand-in of vshim.rs (an executable
+// statement of the deque contract, <= 4 entries); the rendezvous code itself is untouched.
 // Side counts are raised to 2 so that closing the handle under test disconnects nothing.  Bounded histories (kind=hist).
 use super::*;
 use crate::error::*;
@@ -159,7 +162,7 @@ fn ob_c04_rv_spsc_gate_sync_sender() { gate_sender(false); }
 #[kani::unwind(6)]
 fn ob_c04_rv_spsc_gate_async_sender() { gate_sender(true); }
 
-// @obligation id=c04.rv_spsc.gate.SyncReceiver props=C04,C01 kind=hist tier=probe bound="SPSC rendezvous channel, side counts raised to 2, one async peer parked on the other side; payloads any u8; closed sync receiver: try_recv, recv, recv_timeout, second close, drop"
+// @obligation id=c04.rv_spsc.gate.SyncReceiver props=C04,C01 kind=hist tier=quick bound="SPSC rendezvous channel, side counts raised to 2, one async peer parked on the other side; payloads any u8; closed sync receiver: try_recv, recv, recv_timeout, second close, drop"
 #[kani::proof]
 #[kani::stub(std::thread::current::current, crate::verif_k_stubs::stub_thread_current)]
 #[kani::stub(parking_lot::RawMutex::lock_slow, crate::verif_k_stubs::stub_lock_slow)]
@@ -170,7 +173,7 @@ fn ob_c04_rv_spsc_gate_async_sender() { gate_sender(true); }
 #[kani::unwind(6)]
 fn ob_c04_rv_spsc_gate_sync_receiver() { gate_receiver(false); }
 
-// @obligation id=c04.rv_spsc.gate.AsyncReceiver props=C04,C01 kind=hist tier=probe bound="SPSC rendezvous channel, side counts raised to 2, one async peer parked on the other side; payloads any u8; closed async receiver: try_recv, recv (polled once), second close, drop"
+// @obligation id=c04.rv_spsc.gate.AsyncReceiver props=C04,C01 kind=hist tier=quick bound="SPSC rendezvous channel, side counts raised to 2, one async peer parked on the other side; payloads any u8; closed async receiver: try_recv, recv (polled once), second close, drop"
 #[kani::proof]
 #[kani::stub(std::thread::current::current, crate::verif_k_stubs::stub_thread_current)]
 #[kani::stub(parking_lot::RawMutex::lock_slow, crate::verif_k_stubs::stub_lock_slow)]
